@@ -169,10 +169,22 @@ fn gen(t: &mut Tape, _tier: Tier) -> Scenario {
         let payload = enc.finish_segment();
         let mut opts = OptSpec::default();
         // a memory limit that is large enough must not change anything
-        opts.memlimit = match t.below(5) {
+        opts.memlimit = match t.below(7) {
             0 => Some(dict.min(1 << 30) as usize),
             1 => Some(1 << 30),
             2 => Some((dict.min(1 << 28) * 2) as usize),
+            // a window capacity below the dictionary: the decode may stop early with a
+            // memory-limit error, but what it delivers must still be what the symbols
+            // define (never bytes left behind by an earlier lap of a smaller ring)
+            3 => {
+                sc.set_i("low_limit", 1);
+                Some(match t.below(4) {
+                    0 => t.range(1, 64),
+                    1 => (expect.len() as u64 / 2).max(1),
+                    2 => dict.min(1 << 20).saturating_sub(1 + t.below(4)).max(1),
+                    _ => t.range(1, dict.min(1 << 20).max(2) - 1),
+                } as usize)
+            }
             _ => None,
         };
         if raw {
@@ -371,6 +383,9 @@ fn exec(sc: &Scenario, ctx: &mut Ctx) -> Vec<Violation> {
     if sc.i("wrap_pos") <= 1 && sc.i("laps") >= 1 {
         ctx.stats.hit("probe.bad_copy_at_wrap_point_plus_0_or_1");
     }
+    if sc.i("low_limit") == 1 {
+        ctx.stats.hit("arm.memory_limit_below_the_dictionary");
+    }
     if sc.i("lzma2_inherit") == 1 {
         ctx.stats.hit("probe.distance_inherited_across_lzma2_dictionary_reset");
     }
@@ -405,7 +420,7 @@ fn exec(sc: &Scenario, ctx: &mut Ctx) -> Vec<Violation> {
 pub static C09: SimpleProp = SimpleProp {
     id: "C09",
     level: "exploration",
-    rule: "one evaluation = one decode of (valid reference-encoded prefix + one illegal copy: distance produced+1, dictionary+1, one lap back, 2^31, 2^32-1, stale repeated distance at stream start or across an LZMA2 dictionary reset, matched literal with stale rep0) placed at wrap-relative positions 0,1,dict-1,dict,dict+1,k*dict±1 and random; circular window via lzma_decompress / raw decoder (dictionary 1..64, 4096..) / Stream, accumulating window via LZMA2 plain and inside .xz; every case distinct by scenario hash and non-trivial by construction",
+    rule: "one evaluation = one decode of (valid reference-encoded prefix + one illegal copy: distance produced+1, dictionary+1, one lap back, 2^31, 2^32-1, stale repeated distance at stream start or across an LZMA2 dictionary reset, matched literal with stale rep0) placed at wrap-relative positions 0,1,dict-1,dict,dict+1,k*dict±1 and random; circular window via lzma_decompress / raw decoder (dictionary 1..64, 4096..) / Stream, with no memory limit, one >= the dictionary, or one below it (the delivered bytes must then still be a prefix of what the symbols define), accumulating window via LZMA2 plain and inside .xz; every case distinct by scenario hash and non-trivial by construction",
     runs_quick: 60_000,
     runs_thorough: 24_000_000,
     both_profiles: false,
